@@ -48,4 +48,15 @@ PROPS = {
             "value names of one enum are distinct (GraphQL validity) and so are their Rust identifiers; collisions (`type`/`type_`, `foo_bar`/`fooBar` under normalization = rust, a value named `Other`) are the known class ident_collision",
         ],
     ),
+    "C18": dict(
+        coq_props=["Properties/C18.v"],
+        run_modules=["RunC18.v"],
+        harness_cmd="c18",
+        trusted_base=COMMON_TB + [
+            "Attrs.v is a hand model of attributes.rs (three scanners) and of the option record lib.rs:58 builds; tied by RunC18.corr to the real functions (attributes.rs is compiled into the harness from the working tree by #[path])",
+            "syn's tokenisation of the attribute and LitStr decoding of plain / raw / escaped literals (the model's literals carry decoded values)",
+            "the glue in graphql_query_derive/src/lib.rs (which extractor feeds which setter) is mirrored by Attrs.derive_options; it is observed through real derives only in the consumer-based checks (C02/C05)",
+        ],
+        assumptions=["keys of one attribute are pairwise distinct (a repeated key is outside the property's quantifier)"],
+    ),
 }
